@@ -197,7 +197,7 @@ func runC17(r *engine.Run) {
 		r.HarnessError("%v", err)
 		return
 	}
-	r.Rule = "E1. Frequency: decode(encode(f)) = f for (quick) every multiple of 100 Hz in 100..1000 MHz and 2.4..2.5 GHz plus every Hz of twenty 10 kHz windows, (thorough) every Hz value 0..2^32; Percentage: every integer -1000..1000; HEXBytes: lengths 0..40 x 3 fillers x {plain, 0x-prefixed, upper case}; ISO8601Time: every second of four days (years 1, 1970, 2038, 9999) x zone {Z, +05:30, -08:00}; each of the 20 payload structs with every subset of its optional (pointer / omitempty) fields present (up to 2^10 subsets) x 3 value variants, compared field by field after json.Marshal/json.Unmarshal. Key envelopes: KEK length {16,24,32} x KEK(2) x key(3) x label {'', 'lbl'}: blob equals an independent RFC 3394 wrap, Unwrap returns the key, every single-bit flip of the blob (192), wrong KEK and truncated/extended blobs: Unwrap succeeds iff the independent integrity check passes. Non-trivial: a value that was encoded, decoded and compared."
+	r.Rule = "E1. Frequency: decode(encode(f)) = f for (quick) every multiple of 100 Hz in 100..1000 MHz and 2.4..2.5 GHz plus every Hz of twenty 10 kHz windows, (thorough) every Hz value 0..2^32; Percentage: every integer -1000..1000; HEXBytes: lengths 0..40 x 3 fillers x {plain, 0x-prefixed, upper case}; ISO8601Time: every second of four days (years 1, 1970, 2038, 9999) x zone {Z, +05:30, -08:00}; each of the 20 payload structs and the 13 building-block structs with every subset of its optional (pointer / omitempty) fields present (up to 2^10 subsets) x 3 value variants, compared field by field after json.Marshal/json.Unmarshal. Key envelopes: KEK length {16,24,32} x KEK(2) x key(3) x label {'', 'lbl'}: blob equals an independent RFC 3394 wrap, Unwrap returns the key, every single-bit flip of the blob (192), wrong KEK and truncated/extended blobs: Unwrap succeeds iff the independent integrity check passes. Non-trivial: a value that was encoded, decoded and compared."
 	c17History(r)
 	r.Assume("encoding/json and strconv are trusted; RFC 3394 is re-implemented in mc/spec/crypto.go and self-tested on the RFC vectors")
 
@@ -338,6 +338,15 @@ func runC17(r *engine.Run) {
 		func() interface{} { return &backend.HomeNSReqPayload{} }, func() interface{} { return &backend.HomeNSAnsPayload{} },
 		func() interface{} { return &backend.ProfileReqPayload{} }, func() interface{} { return &backend.ProfileAnsPayload{} },
 		func() interface{} { return &backend.XmitDataReqPayload{} }, func() interface{} { return &backend.XmitDataAnsPayload{} },
+		// the building blocks on their own, so that every subset of THEIR optional fields is enumerated
+		// (inside a payload a nested block is one optional field)
+		func() interface{} { return &backend.BasePayload{} }, func() interface{} { return &backend.BasePayloadResult{} },
+		func() interface{} { return &backend.Result{} }, func() interface{} { return &backend.KeyEnvelope{} },
+		func() interface{} { return &backend.VSExtension{} }, func() interface{} { return &backend.GWInfoElement{} },
+		func() interface{} { return &backend.ULMetaData{} }, func() interface{} { return &backend.DLMetaData{} },
+		func() interface{} { return &backend.ServiceProfile{} }, func() interface{} { return &backend.DeviceProfile{} },
+		func() interface{} { return &backend.RoutingProfile{} }, func() interface{} { return &backend.NetworkActivationRecord{} },
+		func() interface{} { return &backend.NetworkTrafficRecord{} },
 	}
 	for _, mk := range structs {
 		mk := mk
